@@ -357,11 +357,13 @@ class ClassModel(PyModel):
             if self._decorator_kind(d) is None:
                 raise Unsupported(f"decorator `{unparse(d)[:50]}` of {fnode.name}")
 
-    def _wrap(self, fnode):
+    def _wrap(self, fnode, owner: Optional[list] = None):
         interp = self
+        # `owner` is a one-element list that receives the generated class: the closure cell of zero-argument super()
+        envs = [{"__class__": owner}] if owner is not None else []
 
         def method(*args, **kw):
-            return interp.call(FuncVal(fnode, []), list(args), kw)
+            return interp.call(FuncVal(fnode, envs), list(args), kw)
         method._model_wrapper = True
         method.__name__ = fnode.name
         return method
@@ -380,6 +382,7 @@ class ClassModel(PyModel):
             else:
                 raise Unsupported(f"base class `{unparse(b)[:40]}` of {node.name}")
         ns: Dict[str, object] = {"__module__": "sqlastatic.model", "__qualname__": node.name}
+        cell: list = [None]
         for st in node.body:
             if isinstance(st, (ast.FunctionDef, ast.AsyncFunctionDef)):
                 kinds = [self._decorator_kind(d) for d in st.decorator_list]
@@ -393,7 +396,7 @@ class ClassModel(PyModel):
                     continue
                 if any(isinstance(d, (ast.Name, ast.Attribute)) and (dotted(d) or "").rsplit(".", 1)[-1] == "overload" for d in st.decorator_list):
                     continue
-                w = self._wrap(st)
+                w = self._wrap(st, cell)
                 if "classmethod" in kinds:
                     w = classmethod(w)
                 elif "staticmethod" in kinds:
@@ -418,6 +421,7 @@ class ClassModel(PyModel):
             else:
                 raise Unsupported(f"class body statement `{unparse(st).splitlines()[0][:50]}` of {node.name}")
         cls = type(node.name, tuple(bases) or (object,), ns)
+        cell[0] = cls
         self.gen_types.add(cls)
         return cls
 
@@ -428,7 +432,8 @@ class ClassModel(PyModel):
     def _allowed(self, v) -> bool:
         if isinstance(v, type):
             return v in self.gen_types
-        return type(v) in self.gen_types or v is self.cy or (isinstance(v, types.ModuleType) and v.__name__ in ("operator", "collections", "itertools"))
+        return type(v) in self.gen_types or v is self.cy or isinstance(v, _b.super) \
+            or (isinstance(v, types.ModuleType) and v.__name__ in ("operator", "collections", "itertools"))
 
     def ev(self, e, envs):
         if isinstance(e, ast.Attribute):
@@ -455,6 +460,60 @@ class ClassModel(PyModel):
             raise Unsupported("super()")
         return super().call(f, args, kw)
 
+    def _call_funcval(self, f: FuncVal, args, kw):
+        """PyModel._call_funcval with the generator test cached per function (the base walks the whole body on every call)"""
+        node = f.node
+        cache = self.__dict__.setdefault("_gen_cache", {})
+        hit = cache.get(id(node))
+        if hit is None:
+            from ..astutil import walk_local
+            hit = (node, any(isinstance(n, (ast.Yield, ast.YieldFrom, ast.Await)) for n in walk_local(node))
+                   if not isinstance(node, ast.Lambda) else False)
+            cache[id(node)] = hit
+        if hit[1]:
+            raise Unsupported(f"generator / coroutine {getattr(node, 'name', 'lambda')}")
+        a = node.args
+        env: Dict[str, object] = {}
+        pos = a.posonlyargs + a.args
+        args = list(args)
+        kw = dict(kw)
+        name = getattr(node, "name", "lambda")
+        if len(args) > len(pos) and not a.vararg:
+            raise TypeError(f"{name}() takes {len(pos)} positional arguments but {len(args)} were given")
+        ndef = len(a.defaults)
+        for i, p in enumerate(pos):
+            if i < len(args):
+                env[p.arg] = args[i]
+                if p.arg in kw and p not in a.posonlyargs:
+                    raise TypeError(f"{name}() got multiple values for argument '{p.arg}'")
+            elif p.arg in kw and p not in a.posonlyargs:
+                env[p.arg] = kw.pop(p.arg)
+            elif i >= len(pos) - ndef:
+                env[p.arg] = self.ev(a.defaults[i - (len(pos) - ndef)], f.envs)
+            else:
+                raise TypeError(f"{name}() missing required positional argument '{p.arg}'")
+        if a.vararg:
+            env[a.vararg.arg] = tuple(args[len(pos):])
+        for p, d in zip(a.kwonlyargs, a.kw_defaults):
+            if p.arg in kw:
+                env[p.arg] = kw.pop(p.arg)
+            elif d is not None:
+                env[p.arg] = self.ev(d, f.envs)
+            else:
+                raise TypeError(f"{name}() missing keyword-only argument '{p.arg}'")
+        if a.kwarg:
+            env[a.kwarg.arg] = kw
+        elif kw:
+            raise TypeError(f"{name}() got an unexpected keyword argument '{next(iter(kw))}'")
+        envs = [env] + f.envs
+        if isinstance(node, ast.Lambda):
+            return self.ev(node.body, envs)
+        try:
+            self.run(node.body, envs)
+        except _Return as r:
+            return r.value
+        return None
+
     def _ev_call(self, e, envs):
         if isinstance(e.func, ast.Attribute):
             recv = self.ev(e.func.value, envs)
@@ -463,6 +522,18 @@ class ClassModel(PyModel):
                 f = getattr(recv, e.func.attr)
             else:
                 raise Unsupported(f"method call `{unparse(e)[:60]}` on {type(recv).__name__}")
+        elif isinstance(e.func, ast.Name) and e.func.id == "super" and not e.args and not e.keywords \
+                and not any("super" in env for env in envs):
+            # zero-argument super(): the class the method was defined in + the method's first argument
+            cell = next((env["__class__"] for env in envs if "__class__" in env), None)
+            first = None
+            for env in envs:
+                if env and "__class__" not in env:
+                    first = next(iter(env.values()))
+                    break
+            if not cell or cell[0] is None or first is None:
+                raise Unsupported("super() outside a method of a modelled class")
+            return _b.super(cell[0], first)
         else:
             f = self.ev(e.func, envs)
         args = self._elts(e.args, envs)
